@@ -62,6 +62,7 @@ func main() {
 	noControls := flag.Bool("no-controls", false, "thorough tier without the mutant controls")
 	manifest := flag.Bool("manifest", false, "print MANIFEST.json generated from the rule registry")
 	dump := flag.String("dump", "", "debug: print the SSA of the functions whose name contains this string")
+	genParamRef := flag.Bool("gen-paramref", false, "print the reference table of parameter and captured-variable names (internal/eng/paramref.json)")
 	funcs := flag.String("funcs", "", "debug: list function names containing this string")
 	flag.Parse()
 	debug.SetGCPercent(400) // short-lived process: trade memory (< 2 GB) for less GC work
@@ -140,6 +141,16 @@ func main() {
 			os.Exit(2)
 		}
 		cfg.Overlay = map[string][]byte{filepath.Join(*repo, *overlayFile): content}
+	}
+	if *genParamRef {
+		prog, err := eng.Load(cfg)
+		if err != nil {
+			fmt.Fprintln(os.Stderr, err)
+			os.Exit(2)
+		}
+		b, _ := prog.GenParamRef()
+		os.Stdout.Write(b)
+		return
 	}
 	if *all {
 		os.Exit(runAll(cfg, *tier))
